@@ -584,6 +584,19 @@ package saml
 //@ ensures[C06] method: err == nil ==> (req.IDP.SignatureMethod != "" && CtxMethod(result) == req.IDP.SignatureMethod) ||
 //@    (req.IDP.SignatureMethod == "" && CtxMethod(result) == dsig.RSASHA1SignatureMethod)
 //@ ensures[C06] signer: err == nil && req.IDP.Signer != nil ==> CtxKey(result) == req.IDP.Signer
+//@ -- the certificate chain put into KeyInfo: the IdP's own certificate first (what verifiers check the signature
+//@ -- against), then the intermediates in order; the private-key path signs with the IdP's key and leaf
+//@ import tls "crypto/tls"
+//@ loop 1 vars certificates [][]byte
+//@ invariant[C06] leaf_first: len(certificates) == 1+iter && sameBytes(certificates[0], req.IDP.Certificate.Raw) &&
+//@    forall(0, iter, func(k int) bool { return sameBytes(certificates[k+1], req.IDP.Intermediates[k].Raw) })
+//@ assert@call[C06] NewSigningContext #1 (signer crypto.Signer, chain [][]byte) uses certificates [][]byte signer_with_chain:
+//@    signer == req.IDP.Signer && sameChain(chain, certificates) && len(chain) == 1+len(req.IDP.Intermediates) && sameBytes(chain[0], req.IDP.Certificate.Raw)
+//@ assert@call[C06] NewDefaultSigningContext #1 (ks dsig.X509KeyStore) uses certificates [][]byte key_with_chain:
+//@    isTLSStore(ks) && sameChain(tlsStore(ks).Certificate, certificates) && tlsStore(ks).PrivateKey == req.IDP.Key && tlsStore(ks).Leaf == req.IDP.Certificate &&
+//@    len(tlsStore(ks).Certificate) == 1+len(req.IDP.Intermediates) && sameBytes(tlsStore(ks).Certificate[0], req.IDP.Certificate.Raw)
+//@ go func isTLSStore(ks dsig.X509KeyStore) bool { _, ok := ks.(dsig.TLSCertKeyStore); return ok }
+//@ go func tlsStore(ks dsig.X509KeyStore) dsig.TLSCertKeyStore { x, _ := ks.(dsig.TLSCertKeyStore); return x }
 
 //@ contract (*IdpAuthnRequest).MakeAssertionEl
 //@ requires[cfg] idp: req.IDP != nil && req.IDP.Certificate != nil
@@ -1042,6 +1055,10 @@ package saml
 
 //@ -- ------------------------------------------------------------------------------------------
 //@ -- C15: the numeric core of durations and instants (the lexical layer - fmt, regexp, strconv, time.Parse/Format - is assumed)
+//@ -- the instant layout every Element() builder and RelaxedTime print with: millisecond precision with the numeric zone
+//@ -- offset ("Z07:00" - a bare "Z" would print local wall-clock digits labelled as UTC)
+//@ contract init
+//@ ensures[C12,C15,C06,C02] time_format: timeFormat == "2006-01-02T15:04:05.999Z07:00"
 //@ globalinv duration_patterns: durationRegexp != nil && durationTimeRegexp != nil
 //@ -- the number of capture groups of the two literal patterns is a fact about regexp's parse of them: assumed
 //@ configinv duration_groups: durationRegexp.NumSubexp() == 5 && durationTimeRegexp.NumSubexp() == 3
